@@ -30,6 +30,12 @@ func runAnything(c *CaseCtx, checkState bool, class string, merge bool) {
 	}
 	m := NewModel() // only used to steer the generator (approximate state), never as an oracle
 	g := &Gen{R: r, U: u, Cfg: cfg, KV: true, List: ds, Set: ds, ZSet: ds, TTL: true, MaxOps: 6, M: m}
+	if checkState && !merge && cfg.Mode != 2 && c.Case%4 == 1 {
+		// C08 with Merge: only in histories without lists and positional sorted-set removals (whose state Merge itself
+		// changes: recorded findings of C15/C16); everything else must read the same after Merge, Close and Open
+		merge = true
+		g.List, g.NoZPop = false, true
+	}
 	nReopen := 2 + r.Intn(3)
 	ntx := 20 + r.Intn(tier(c.Tier, 40, 100))
 	closed := false
